@@ -7,7 +7,12 @@ import (
 
 var ifExpression ifExpressionParser
 
-var untilElseIfElseOrEnd = parse.Any(StripType(elseIfExpression), StripType(elseExpression), StripType(closeBraceWithOptionalPadding))
+// The nodes of a block end where an else-if, an else or the closing brace starts. Only the start
+// is looked at: parsing the whole else-if / else block to find out, and then once more for real,
+// doubles the work with every level of nesting.
+var untilElseIfElseOrEnd = parse.Any(StripType(elseIfStart), StripType(endElseParser), StripType(closeBraceWithOptionalPadding))
+
+var elseIfStart = parse.All(parse.OptionalWhitespace, closeBrace, parse.OptionalWhitespace, parse.String("else if"))
 
 type ifExpressionParser struct{}
 
@@ -71,7 +76,7 @@ func (elseIfExpressionParser) Parse(pi *parse.Input) (r ElseIfExpression, ok boo
 	start := pi.Index()
 
 	// Check the prefix first.
-	if _, ok, err = parse.All(parse.OptionalWhitespace, closeBrace, parse.OptionalWhitespace, parse.String("else if")).Parse(pi); err != nil || !ok {
+	if _, ok, err = elseIfStart.Parse(pi); err != nil || !ok {
 		pi.Seek(start)
 		return
 	}
